@@ -16,6 +16,7 @@
    BApp carries the reallocation oracle (force a reallocation, spare capacity of the new array):
    the statements quantify over it. *)
 From CH Require Import model.Writer proofs.WriterProofs.
+From CH Require Import model.Columns model.Block model.Send proofs.SendProofs.
 Open Scope nat_scope.
 
 (* for every initial buffer, every history inside the contract, every reallocation oracle and every
@@ -96,6 +97,20 @@ Theorem chained_encoding_eq_buffer_encoding_partial : forall ops s sk scr,
              Some (s', [expected s ++ concat (map (plain (s_ext s)) ops)]).
 Proof. exact enc_ops_expected. Qed.
 Print Assumptions chained_encoding_eq_buffer_encoding_partial.
+
+(* the column / block half, over the column model (model/Send.v mirrors every WriteColumn as a list of
+   pieces - buffer appends and zero-copy chained slices - and Block.WriteBlock on top): for every type tree
+   and contents the pieces carry exactly the bytes of EncodeColumn / EncodeBlock (and WriteBlock fails iff
+   EncodeBlock fails).  Together with [chained_encoding_eq_buffer_encoding_partial] above (pieces flushed =
+   pieces concatenated) this is write_column_eq / write_block_eq. *)
+Theorem write_column_eq : forall b t d, pieces_bytes (write_col b t d) = enc b t d.
+Proof. exact write_col_bytes. Qed.
+Print Assumptions write_column_eq.
+
+Theorem write_block_eq : forall b v i n cols,
+  option_map pieces_bytes (write_block b v i n cols) = encode_block b v i n cols.
+Proof. exact write_block_bytes. Qed.
+Print Assumptions write_block_eq.
 
 (* non-vacuity: a history with an in-place append, a zero-copy chain, a forced reallocation with a
    rewrite of the uncut tail, the caller overwriting the chained slice, a failing flush, and a second
